@@ -429,7 +429,7 @@ func (h *Hist) checkGauges(when string, i int) {
 		if err != nil || snap == nil {
 			h.Failf("%s: Store.Snapshot: %v", when, err)
 		}
-		d := CompareSnapshot(snap, h.Model, h.readOpts(), "store")
+		d := CompareSnapshot(snap, h.Model, h.storeReadOpts(), "store")
 		snap.Close()
 		if d != "" {
 			h.Failf("%s: dirty gauges are all zero but the store does not contain every executed batch (%d batches): %s", when, n, d)
@@ -468,7 +468,7 @@ func (h *Hist) reopenCopy(when string, want *Node, what string) {
 		s.Close()
 		h.Failf("%s: Snapshot of reopened copy: %v", when, err)
 	}
-	d := CompareSnapshot(snap, want, h.readOpts(), "reopened-copy")
+	d := CompareSnapshot(snap, want, h.storeReadOpts(), "reopened-copy")
 	snap.Close()
 	c.Close()
 	s.Close()
